@@ -707,6 +707,55 @@ def inline_private_calls(repo, cls, fn, depth=2, only=None, _seen=(), helper_tra
                     elif value is not None and any(isinstance(x, ast.Call) for x in ast.walk(value)):
                         out.append(ast.copy_location(ast.Expr(value=value), st))
                     continue
+            # a multi-statement helper called inside the expression of a simple statement / an `if` test: hoisted in front
+            # of the statement when nothing of the statement is evaluated before the call (no earlier call, no
+            # conditional evaluation around it)
+            hoisted = False
+            if isinstance(st, (ast.If, ast.Assign, ast.Return, ast.Expr, ast.AugAssign)):
+                roots = [st.test] if isinstance(st, ast.If) else [getattr(st, "value", None)]
+                roots = [r_ for r_ in roots if r_ is not None]
+                for root in roots:
+                    parents = {}
+                    for p_ in ast.walk(root):
+                        for ch in ast.iter_child_nodes(p_):
+                            parents[id(ch)] = p_
+                    for cand in [x for x in ast.walk(root) if isinstance(x, ast.Call) and helper_of(x) is not None]:
+                        h, body = helper_of(cand)
+                        if len(body) == 1:
+                            continue             # single-expression helper: substituted below
+                        anc, cur = [], cand
+                        while id(cur) in parents:
+                            cur = parents[id(cur)]
+                            anc.append(cur)
+                        if any(isinstance(a_, (ast.BoolOp, ast.IfExp, ast.Lambda, ast.ListComp, ast.SetComp, ast.DictComp, ast.GeneratorExp)) for a_ in anc):
+                            continue
+                        pos = (cand.lineno, cand.col_offset)
+                        earlier = [x for x in ast.walk(root) if isinstance(x, ast.Call) and x is not cand and x not in anc
+                                   and (x.end_lineno, x.end_col_offset) <= pos]
+                        if earlier:
+                            continue
+                        r = expand(cand, st)
+                        if r is None or r[1] is None:
+                            continue
+                        pre, value = r
+                        tmp = "_inl%d_ret" % next(counter)
+                        out += pre
+                        out.append(ast.copy_location(ast.Assign(targets=[ast.Name(id=tmp, ctx=ast.Store())], value=value), st))
+
+                        class Rep(ast.NodeTransformer):
+                            def visit_Call(self, node):
+                                if node is cand:
+                                    return ast.copy_location(ast.Name(id=tmp, ctx=ast.Load()), node)
+                                return self.generic_visit(node)
+                        if isinstance(st, ast.If):
+                            st.test = Rep().visit(st.test)
+                        else:
+                            st.value = Rep().visit(st.value)
+                        changed[0] = True
+                        hoisted = True
+                        break
+                    if hoisted:
+                        break
             # single-expression helpers inside larger expressions
             class Sub(ast.NodeTransformer):
                 def visit_Call(self, node):
